@@ -583,9 +583,9 @@ def generate(rng, prop, tier):
             extra = [e for e in extra if not isinstance(e, (bytes, tuple))]
         pool = pool + extra
     if cfg.get('tol') is not None:
-        # rounded floats must not collide with ints of the pool or with the defaults y=2, k=1
-        # (3.04 -> 3.0 == 3 are equal keys for a dict but distinct names for a directory archive)
-        pool = [p for p in pool if p not in (3, 4, 1.5, 2.25)] + [3.04, 3.06, 4.249]
+        # rounded floats must not collide with ints of the pool or with the defaults y=2, k=1, z=3
+        # (5.04 -> 5.0 == 5 are equal keys for a dict but distinct names for a directory archive)
+        pool = [p for p in pool if p not in (5, 6, 1.5, 2.25)] + [5.04, 5.06, 6.249]
     rng.shuffle(pool)
     hot = [logical_call(rng, fn, pool[:6], True) for _ in range(rng.randint(2, 9))]
     if cfg.get('wide'):
